@@ -110,7 +110,34 @@ func c16prop(r *simkit.Run) {
 		chunked = false
 		respBytes, headLen = buildResponse(status, hdrs, body, chunked, chunkSizes)
 	}
-	spec := exchangeSpec{rawRequest: []byte("GET /res?x=1 HTTP/1.1\r\nHost: example.com\r\n\r\n"), peerAddr: "192.0.2.7:5555", passHost: rapid.Bool().Draw(rt, "pass-host"),
+	// the request: mostly a bare GET, sometimes a POST whose body (fixed length or chunked) must reach the backend unchanged
+	rawReq := "GET /res?x=1 HTTP/1.1\r\nHost: example.com\r\n\r\n"
+	var reqBody []byte
+	if rapid.IntRange(0, 3).Draw(rt, "post") == 0 {
+		reqBody = make([]byte, rapid.SampledFrom([]int{0, 1, 100, 5000, 70000}).Draw(rt, "req-body-n"))
+		for i := range reqBody {
+			reqBody[i] = byte('A' + i%23)
+		}
+		if rapid.Bool().Draw(rt, "req-chunked") {
+			var b bytes.Buffer
+			b.WriteString("POST /res?x=1 HTTP/1.1\r\nHost: example.com\r\nTransfer-Encoding: chunked\r\n\r\n")
+			for rest := reqBody; len(rest) > 0; {
+				n := len(rest)
+				if n > 4000 {
+					n = 4000
+				}
+				fmt.Fprintf(&b, "%x\r\n", n)
+				b.Write(rest[:n])
+				b.WriteString("\r\n")
+				rest = rest[n:]
+			}
+			b.WriteString("0\r\n\r\n")
+			rawReq = b.String()
+		} else {
+			rawReq = fmt.Sprintf("POST /res?x=1 HTTP/1.1\r\nHost: example.com\r\nContent-Length: %d\r\n\r\n%s", len(reqBody), reqBody)
+		}
+	}
+	spec := exchangeSpec{rawRequest: []byte(rawReq), peerAddr: "192.0.2.7:5555", passHost: rapid.Bool().Draw(rt, "pass-host"),
 		plan: backendPlan{response: respBytes, headLen: headLen, cutAt: -1}}
 	bodyWire := len(respBytes) - headLen
 	switch fault {
@@ -197,6 +224,11 @@ func c16prop(r *simkit.Run) {
 			}
 		}
 		r.Fail("gateway-status", "%s: the client got %d, expected %v %s", what, res.status, ok, ctxt)
+	}
+	if reqBody != nil && fault != "refused" && fault != "dial-timeout" && res.backendReq != nil {
+		if got := decodeBody(res.backendReq); !bytes.Equal(got, reqBody) {
+			r.Fail("request-body", "the backend received a request body of %d bytes, the client sent %d (first difference at %d) %s", len(got), len(reqBody), firstDiff(got, reqBody), ctxt)
+		}
 	}
 	switch fault {
 	case "none":
@@ -300,4 +332,35 @@ func firstDiff(a, b []byte) int {
 		}
 	}
 	return n
+}
+
+// decodeBody extracts the body from raw request bytes (fixed length or chunked)
+func decodeBody(raw []byte) []byte {
+	i := bytes.Index(raw, []byte("\r\n\r\n"))
+	if i < 0 {
+		return nil
+	}
+	head, rest := strings.ToLower(string(raw[:i])), raw[i+4:]
+	if !strings.Contains(head, "transfer-encoding: chunked") {
+		return rest
+	}
+	var out []byte
+	for len(rest) > 0 {
+		j := bytes.Index(rest, []byte("\r\n"))
+		if j < 0 {
+			break
+		}
+		var n int
+		fmt.Sscanf(string(rest[:j]), "%x", &n)
+		rest = rest[j+2:]
+		if n == 0 || n > len(rest) {
+			break
+		}
+		out = append(out, rest[:n]...)
+		rest = rest[n:]
+		if len(rest) >= 2 {
+			rest = rest[2:]
+		}
+	}
+	return out
 }
